@@ -457,9 +457,19 @@ class Interp:
             sc.op_begin(op.get("_id", path))
         self.clock += 1
         t0 = self.clock
+        re_key = None
+        if op.get("reentry"):
+            # user code called by jaxtyping during THIS operation (the k-th hit of a call-out site from now on) calls back into
+            # jaxtyping: the nested operation runs in the same thread and context, in the middle of the outer check
+            st_ = seams.state()
+            re = op["reentry"]
+            re_key = (re["site"], st_.counts.get(re["site"], 0) + re["k"])
+            st_.reentry[re_key] = lambda: self.exec_op(re["op"], path + ".re")
         try:
             out = getattr(self, "op_" + op["op"])(op, path)
         finally:
+            if re_key is not None:
+                seams.state().reentry.pop(re_key, None)
             if sc is not None:
                 sc.op_end()
             self.clock += 1
@@ -863,6 +873,7 @@ def run_threads(scn, programs, sched_spec, rnd, observer=None, plans=None, yield
     n = len(programs)
     pol = S.make_policy(sched_spec, n, rnd, expected_yields=scn.get("_expected_yields", 4000))
     sc = S.Scheduler(n, pol, opcode_storage=opcode_storage, watchdog_s=watchdog_s, opcode_all=opcode_all)
+    sc.inherit_context = bool(scn.get("inherit_context"))
     runs = [None] * n
     states = [None] * n
 
